@@ -141,7 +141,10 @@ class CrashH(Harness):
     def symbolic(self, eng):
         import pydrobert.torch.training as T
         c = self.cfg
-        vs = [SymFloat(eng.grid(f"v{e}", 0, 8, 4)) for e in range(1, c["E"] + 1)]
+        if c.get("fine"):   # metrics off the printed grid by less than the print precision (in memory: exact; on disk: rounded)
+            vs = [TC.fine_metric(eng, f"v{e}", 1, 4) for e in range(1, c["E"] + 1)]
+        else:
+            vs = [SymFloat(eng.grid(f"v{e}", 0, 8, 4)) for e in range(1, c["E"] + 1)]
         k = eng.int("k", 0, c["kmax"])
         viol, crashed, nticks = self._scenario(T, lambda ca: TC.MemFS(ca), self._params(), vs, "/mem", SymInt(k))
         # bound check: kmax must exceed the number of mutating calls of an update, so that 'no crash' is covered too
@@ -151,6 +154,15 @@ class CrashH(Harness):
 
     def _pack(self, viol):
         c = self.cfg
+        if c.get("fine"):
+            # listed finding: a restarted controller decides on the metrics as printed in the history file (5 significant digits), the uninterrupted
+            # one on the raw values; every other deviation (files, loadability, what is best/last, directory contents, history prefix) stays a violation
+            import re
+            from symtorch.scalar import s_any
+            pat = re.compile(r"after continuing, history entry (lr|es_resume_cd|es_patience_cd|rlr_resume_cd|rlr_patience_cd) of epoch \d+ differs")
+            known = [(l, cnd) for l, cnd in viol if pat.search(l)]
+            other = [(l, cnd) for l, cnd in viol if not pat.search(l)]
+            return dict(outputs=[], viol=other, finding=[("restart-sees-printed-metrics", s_any(cnd for _, cnd in known))] if known else [])
         if c["epoch_fmt"]:
             return dict(outputs=[], viol=viol)
         # file names without {epoch}: the listed finding is separated from every other deviation
@@ -162,7 +174,7 @@ class CrashH(Harness):
     def concrete(self, vals):
         import pydrobert.torch.training as T
         c = self.cfg
-        vs = [vals[f"v{e}"] / 4 for e in range(1, c["E"] + 1)]
+        vs = [TC.fine_value(vals, f"v{e}") for e in range(1, c["E"] + 1)]
         roots = []
 
         def mk(ca):
@@ -194,11 +206,13 @@ META = dict(
         "surviving files; asserted: its history is a prefix of (and entry-wise equal to) the uninterrupted run's, the last and best epochs (every epoch "
         "when all are kept) load exactly the parameters saved for them, continuing training ends with the uninterrupted history, and with "
         "keep-last-and-best the state directory holds exactly those files after every completed update."),
-    bounds=dict(quick="E=3 epochs, crash inside update 1, 2 or 3, crash index 0..14 (covers all <= 12 mutating calls and no crash), metrics k/4 k<=8, keep-last-and-best on/off, file names with and without {epoch}",
+    bounds=dict(fine="quick: E=3, crash in update 3, metrics k/4 + eps*1e-6 with k in 1..4; thorough: E=4, crash in update 2..4",
+                quick="E=3 epochs, crash inside update 1, 2 or 3, crash index 0..14 (covers all <= 12 mutating calls and no crash), metrics k/4 k<=8, keep-last-and-best on/off, file names with and without {epoch}",
                 thorough="E=4 epochs, crash inside every update, crash index 0..16, both keep settings and both name formats, two lr thresholds"),
     assumptions=[
         "atomic granularity = one Python-level file-system call (os.replace atomic, a csv row append all-or-nothing, torch.save content written in one step); no torn writes, no fsync/rename-durability model",
-        "metric format pass-through as in C15 (grid round trip checked concretely)",
+        "metric format pass-through as in C15 (grid round trip checked concretely); in the 'fine' configurations a metric is k/4 + eps*1e-6 (k>=1, eps in -1..1): exact in memory, "
+        "printed as k/4 (checked concretely each run)",
         "counterexamples are replayed on a real temporary directory with the real csv/tempfile/torch.save and a crash injected at the same call index",
         "with file names lacking {epoch} only the last epoch's parameters are expected to persist (the library warns about this)",
     ],
@@ -209,8 +223,8 @@ M_ = "checks.c16"
 
 
 def extra(tier, seed):
-    bad = grid_roundtrip_ok()
-    return [dict(name="grid-print-roundtrip", status="ok" if not bad else "inconclusive", detail=f"values not exactly printable: {bad}", obligations=0)]
+    bad = grid_roundtrip_ok() + TC.fine_print_ok()
+    return [dict(name="grid-print-roundtrip", status="ok" if not bad else "inconclusive", detail=f"values not printed as assumed: {bad}", obligations=0)]
 
 
 def tasks(tier):
@@ -222,4 +236,7 @@ def tasks(tier):
         for ce in range(1, E_ + 1):
             for thr in ([0.5] if tier == "quick" else [0.5, 0.0]):
                 ts.append(task(PROP, M_, "CrashH", E=E_, crash_epoch=ce, keep=keep, epoch_fmt=efmt, kmax=14 if tier == "quick" else 16, rl_thr=thr, nvalidate=1))
+    # metrics that differ by less than the print precision: what is best in memory must be what is best according to the history file
+    for ce in ((3,) if tier == "quick" else (2, 3, 4)):
+        ts.append(task(PROP, M_, "CrashH", E=E_, crash_epoch=ce, keep=True, epoch_fmt=True, kmax=14 if tier == "quick" else 16, rl_thr=0.5, fine=True, nvalidate=1))
     return ts
